@@ -51,6 +51,18 @@ CLAIMED = {
    text="Sequential contracts of the property register: objectImpl.SetProperty runs the service's validator exactly once before anything is stored (mid-body assertion at the store), stores only a value whose signature matches the declared one (assertion), emits a change event only after the store and exactly one for an accepted write carrying the property's id; a rejected write emits nothing; saveProperty stores exactly the named entry under the write lock; Property returns the stored value of the named entry under the read lock; guard and lock-state obligations on the property table; signalHandler.UpdateProperty counts the emitted event.",
    note="Linearizable-register reading under concurrent writers is NOT decided: validate / save / notify are not one critical section. stubObject.UpdateProperty (service-side updates) and the generated onPropertyChange decoders are not under contract. The validator and Value.Signature are abstract; ghost counters are assumed untouched by uncontracted callees.",
    technique="contract-based deductive verification with ghost validator/event counters and monitor invariant, SMT", ref="7 C14"),
+ "C10": dict(level="other",
+   text="Mechanism obligations only: Message.Write issues exactly one Write with the whole frame on an accepting stream (and none when the size check fails); endPoint.Send calls it once on the endpoint's stream; endPoint.process reads one message and dispatches it synchronously before the next read (ghost read/dispatch counters asserted at both call sites, so a `go dispatch` or a reordering fails); dispatch runs under handlersMutex (guard obligations) and offers the message to the live handlers in slot order with a non-blocking send.",
+   note="Assumed, not decided: a single Write on each supported transport is atomic with respect to concurrent Writes and the stream is FIFO; goroutine schedules; 'each handler receives exactly the subsequence its filter selects' is argued from the synchronous loop plus the per-handler queue, not machine-checked.",
+   technique="contract-based deductive verification of mechanism obligations (ghost counters, monitor rule), SMT", ref="7 C10"),
+ "C11": dict(level="other",
+   text="Mechanism obligations only: client.Call has registered its reply handler when the call message is sent (mid-body assertion), so a reply that arrives before Send returns is dispatched to it; on a failed Send the handler is removed and an error returned; endPoint.process turns a read error into closeWith(err) and leaves the loop, and every exit of the loop has closed the endpoint exactly once (ghost counter); endPoint.closeWith hands every live handler to exactly one closeWith and empties the table; Handler.closeWith closes once (C17).",
+   note="Not decided: bounded time, fault positions inside the kernel/transport, schedules, the Subscribe fan-out goroutine and OnDisconnect (not under contract).",
+   technique="contract-based deductive verification of mechanism obligations, SMT", ref="7 C11"),
+ "C12": dict(level="other",
+   text="Mechanism obligations only, over the server-side receive path (connection consumer loop, Router.Receive, serviceImpl.Receive, mailbox loop, the Object stub methods, signalHandler operations, objectImpl property operations, service 0, endpoint dispatch/RemoveHandler/process): the zero-precondition safety sweep (no reachable panic: index, nil, type assertion, close/send on closed queue), lock-state obligations on every Lock/Unlock (no re-acquisition of a held mutex, no unlock of an unheld one, nothing held at return), argument-decoding errors answered with an error reply without calling the implementation, a duplicate subscription refused without touching existing subscribers.",
+   note="Only re-entrancy on the same mutex is an obligation; cycles between different mutexes are not analysed. 'Within bounded time', floods and mailbox back-pressure are not decided. Closers/filters are assumed to respect the documented restriction.",
+   technique="contract-based deductive verification: safety sweep + lock-state obligations, SMT", ref="7 C12"),
 }
 
 NOT_APPLICABLE = {
